@@ -902,6 +902,47 @@ void World::table_read_all()
     guard([&] { (void)T.lib->information().get(); });
 }
 
+void World::table_read_all_unguarded()
+{
+    auto& T = *tstate;
+    auto tt = T.lib->track();
+    auto pt = T.lib->playlist();
+    auto et = T.lib->playlist_entity();
+    auto guard = [&](auto&& fn) {
+        try
+        {
+            fn();
+        }
+        catch (const std::exception&)
+        {
+        }
+        catch (...)
+        {
+            report(safety_owner(), safety_owner() + "|table-read|" + fam() + "|non-std-exception", "a table-API read threw something that is not a std::exception");
+        }
+    };
+    std::vector<int64_t> ids, lids;
+    guard([&] { ids = tt.all_ids(); });
+    for (auto id : ids)
+    {
+        guard([&] { (void)tt.get(id); });
+        guard([&] { (void)tt.exists(id); });
+    }
+    guard([&] { lids = pt.all_ids(); });
+    guard([&] { (void)pt.root_ids(); });
+    for (auto id : lids)
+    {
+        guard([&] { (void)pt.get(id); });
+        guard([&] { (void)pt.exists(id); });
+        guard([&] { (void)pt.child_ids(id); });
+        guard([&] { (void)pt.descendant_ids(id); });
+        guard([&] { (void)et.track_ids(id); });
+        guard([&] { (void)et.get_for_list(id); });
+    }
+    guard([&] { (void)T.lib->information().get(); });
+    guard([&] { (void)T.lib->change_log().all(); });
+}
+
 // Crossover histories: the public track / crate API and the table API act on the same library in turn.  After a
 // table-API write, L's reference model (tracks, forest, sibling order, membership) is rebuilt from T's row model,
 // handles for new rows are obtained by id, and L's model checks then judge what the track / crate API reports
